@@ -25,6 +25,8 @@ fn num_leaves() -> Vec<Expr> {
         // a non-zero number far below machine epsilon, and a rounding residue: still "non-zero" and a legal divisor
         Expr::Num(".0000000000000000001".into()),
         Expr::Paren(Box::new(bin(Bin::Sub, bin(Bin::Add, Expr::Num(".1".into()), Expr::Num(".2".into())), Expr::Num(".3".into())))),
+        // a literal with 16 significant digits: the nearest double is 1 - 2^-53, not 1
+        Expr::Num("0.9999999999999999".into()),
     ]
 }
 fn str_leaves() -> Vec<Expr> {
@@ -120,7 +122,13 @@ struct Pair<'p> {
 }
 
 fn fresh<'p>(prog: &'p Program) -> Pair<'p> {
+    fresh_with(prog, false)
+}
+
+/// `warnings`: the value of an expression does not depend on whether runtime warnings are enabled
+fn fresh_with<'p>(prog: &'p Program, warnings: bool) -> Pair<'p> {
     let mut real = Session::new();
+    real.it.enable_warnings = warnings;
     real.check_invariants = false;
     real.keep_log = false;
     real.call(Op::Line("A=7".into()));
@@ -214,7 +222,23 @@ fn random_expr(rng: &mut Rng, depth: u32) -> Expr {
             0..=4 => rng.pick(&num_leaves()).clone(),
             5..=7 => rng.pick(&str_leaves()).clone(),
             8 => Expr::Cell("M".into(), vec![Expr::Num(rng.s(&["0", "1", "3", "1.9"]).into())]),
-            9 => Expr::Num(rng.s(&["100", "007", "1.", "12.5", "0.25"]).into()),
+            9 => {
+                if rng.coin() {
+                    // numerals with 15-18 significant digits and a fraction: each has ONE nearest double
+                    let digits = 15 + rng.usize(4);
+                    let point = rng.usize(3);
+                    let mut t = String::new();
+                    for k in 0..digits {
+                        if k == point {
+                            t.push('.');
+                        }
+                        t.push((b'0' + if k == 0 { 1 + rng.below(9) } else { rng.below(10) } as u8) as char);
+                    }
+                    Expr::Num(t)
+                } else {
+                    Expr::Num(rng.s(&["100", "007", "1.", "12.5", "0.25"]).into())
+                }
+            }
             10 => Expr::Cell("M".into(), vec![random_expr(rng, 1)]),
             _ => Expr::Num("4".into()),
         };
@@ -253,7 +277,11 @@ fn handle<'p>(ctx: &Ctx, index: u64, ordinal: u64, empty: &'p Program, e: Expr, 
 
 fn run_case(ctx: &Ctx, index: u64, rep: &mut Report) {
     let empty = Program::default();
-    let mut pair = fresh(&empty);
+    // every other case runs with warnings enabled (PRINT records only are compared)
+    let mut pair = fresh_with(&empty, index % 2 == 1);
+    if index % 2 == 1 {
+        rep.count("cases_with_warnings_enabled");
+    }
     let (o1, o2, o3) = sizes(ctx.tier);
     let lo = index * BATCH;
     let mut done = 0u64;
@@ -335,10 +363,10 @@ fn finalize(tier: Tier, rep: &mut Report) -> Finalize {
     Finalize {
         rule: format!(
             "A case is one syntax tree, evaluated by the real interpreter twice (`PRINT` of its minimal-parentheses and of its fully parenthesised text) and folded once by the model. \
-             ops1: every binary operator over every pair of 80 decorated operands (15 leaves x unary -, NOT, +, ABS, INT); ops2: both tree shapes x 13^2 operators x {}^3 operands; \
+             ops1: every binary operator over every pair of {} decorated operands (16 leaves x unary -, NOT, +, ABS, INT); every other case runs with runtime warnings enabled; ops2: both tree shapes x 13^2 operators x {}^3 operands; \
              ops3 (thorough): all five shapes x 13^3 operators x {}^4 operands; random: trees up to depth 5 with array cells, nested calls and explicit parentheses. \
              Non-trivial: the tree has at least two binary operators (a precedence or associativity witness). Distinct by hash of the minimal text (lower bound: capped per worker).",
-            R2, R3),
+            full_operands().len(), R2, R3),
         floors: vec![
             ("values".into(), 100_000),
             ("errors.TYPE MISMATCH".into(), 10_000),
